@@ -72,7 +72,7 @@ def ordered_case(rng, n):
         if rng.random() < 0.5:
             # the slot's pattern accepts one or two arguments, written as unguarded literal alternatives of matching!; the call uses the first
             t["pat"]["matcher"] = (1 << a) | (1 << rng.choice([x for x in range(8) if x >= a]))
-            t["pat"]["macro"] = True
+            t["pat"]["macro"] = "lit"
     evs = [{"base": ("call", 0, t["mid"], a)} for t, a in zip(terms, args)] + [{"base": ("verify", 0)}]
     return {"partial": False, "terms": terms, "events": evs, "_layout": list(range(n)), "_kind": f"ordered{n}"}
 
